@@ -71,6 +71,11 @@ PathKey(n, x) == "c" \o Str(n) \o "n" \o Str(x)
 NoSecrets == 99998              \* epoch-secret id of a prior-epoch record that holds no real secrets
 NoLeaf == 99999                 \* "the committer is not a member" (external commit)
 CommitterOf(c) == IF c.external THEN NoLeaf ELSE c.byLeaf
+\* "newid": signature keys change in a fixed pattern that the replayer follows: every third Update proposal
+\* (proposal id divisible by 3) and every third commit (commit id divisible by 3) carries a new signature key
+\* of the same identity.  cv names the signature key of a leaf by its origin: 0 = the key of the key package /
+\* group creation, 10000 + j = introduced by Update proposal j, 20000 + n = introduced by commit n.
+NewSig(old, base, id) == IF "newid" \in Features /\ id % 3 = 0 THEN base + id ELSE old
 NoGroup == [st |-> "none"]
 HasGroup(p) == grp[p].st = "member"
 
@@ -136,7 +141,7 @@ ApplyUpdates(mode, upds, i, acc) ==
          IN IF v = "err" THEN [acc EXCEPT !.err = "rule:update-nonmember"]
             ELSE IF v = "drop" THEN ApplyUpdates(mode, upds, i + 1, acc)
             ELSE LET old == Node(acc.tree, 2 * it.by)
-                     nl == MkLeaf(it.key, old.who, old.cv, "upd")
+                     nl == MkLeaf(it.key, old.who, NewSig(old.cv, 10000, it.ref), "upd")
                  IN ApplyUpdates(mode, upds, i + 1,
                         [acc EXCEPT !.tree = UpdateLeaf(acc.tree, it.by, nl),
                                     !.kept = acc.kept \o <<it>>, !.leaves = acc.leaves \cup {it.by}])
@@ -375,7 +380,8 @@ RatchetAfter(r, gen) ==
 (* Prior epochs (mls-rs/src/group/state_repo.rs, epoch.rs PriorEpoch).           *)
 PastRec(g) ==
     [ks |-> g.ks, epoch |-> g.epoch, leaf |-> g.leaf, recv |-> g.recv,
-     who |-> [l \in OccupiedLeaves(g.tree) |-> Node(g.tree, 2 * l).who]]
+     who |-> [l \in OccupiedLeaves(g.tree) |-> Node(g.tree, 2 * l).who],
+     sig |-> [l \in OccupiedLeaves(g.tree) |-> Node(g.tree, 2 * l).cv]]
 
 \* GroupStateRepository::insert accepts the epoch that is left only if it continues the stored history
 \* (id = last queued or stored id + 1).  That holds in every history of one membership.  Named deviation
@@ -591,7 +597,7 @@ Commit(p, byval, dt) ==
              addedLeaves == {a[2] : a \in SeqSet(ar.added)}
              pathKeys == IF withPath THEN EncapKeys(n, ar.tree, g.leaf) ELSE <<>>
              old == Node(ar.tree, 2 * g.leaf)
-             newLeaf == MkLeaf(CommitLeafKey(n), old.who, old.cv, "commit")
+             newLeaf == MkLeaf(CommitLeafKey(n), old.who, NewSig(old.cv, 20000, n), "commit")
              tree1 == IF withPath THEN ApplyPath(ar.tree, g.leaf, newLeaf, pathKeys) ELSE ar.tree
              recips == [x \in DOMAIN pathKeys |->
                           LET rs == Recipients(tree1, g.leaf, x, addedLeaves) IN [i \in 1..Len(rs) |-> Node(tree1, rs[i]).k]]
@@ -675,7 +681,8 @@ ExternalCommit(q, p, resync) ==
             \* and then applies its own commit to it like any member: the epoch that is "left" is queued as a
             \* prior epoch although the joiner never held its secrets (the record cannot decrypt anything)
             /\ repo' = [repo EXCEPT ![q] = [ins |-> <<[ks |-> NoSecrets, epoch |-> g.epoch, leaf |-> 0, recv |-> <<>>,
-                                                       who |-> [x \in OccupiedLeaves(g.tree) |-> Node(g.tree, 2 * x).who]]>>,
+                                                       who |-> [x \in OccupiedLeaves(g.tree) |-> Node(g.tree, 2 * x).who],
+                                                       sig |-> [x \in OccupiedLeaves(g.tree) |-> Node(g.tree, 2 * x).cv]]>>,
                                             upd |-> <<>>]]
             /\ Record("ExternalCommit", q, args, "ok",
                       [commit |-> n, leaf |-> l,
@@ -781,7 +788,7 @@ DeliverCommit(q, n) ==
              \* ancestors) before its update path is installed
              cl == IF c.external THEN NextEmptyLeaf(ar.tree, 0) ELSE c.byLeaf
              old == IF c.external THEN MkLeaf(CommitLeafKey(n), c.by, 0, "commit") ELSE Node(ar.tree, 2 * c.byLeaf)
-             newLeaf == MkLeaf(CommitLeafKey(n), old.who, old.cv, "commit")
+             newLeaf == MkLeaf(CommitLeafKey(n), old.who, NewSig(old.cv, 20000, n), "commit")
              treeA == IF c.external THEN AddLeafAt(ar.tree, cl, newLeaf) ELSE ar.tree
              tree1 == IF c.path THEN ApplyPath(treeA, cl, newLeaf, c.pathKeys) ELSE ar.tree
              dec == IF c.path THEN Decap(tree1, cl, g.leaf, priv0, c.recips, addedLeaves) ELSE [ok |-> TRUE]
@@ -918,9 +925,13 @@ DeliverApp(q, a, gen) ==
                      senderOk == /\ m.byLeaf \in OccupiedLeaves(g.tree)
                                  /\ m.byLeaf \in DOMAIN rec.who
                                  /\ Node(g.tree, 2 * m.byLeaf).who = rec.who[m.byLeaf]
+                     \* Named deviation F24 (known finding): the sender is still the member at that leaf but has changed
+                     \* its signature key since: mls-rs compares signature keys to detect a reused leaf and rejects
+                     rekeyed == senderOk /\ Node(g.tree, 2 * m.byLeaf).cv # rec.sig[m.byLeaf]
                      v == IF rec.ks # m.ks THEN "err:decrypt"
                           ELSE IF v0 # "ok" THEN v0
-                          ELSE IF ~senderOk THEN "err:sender-gone" ELSE "ok"
+                          ELSE IF ~senderOk THEN "err:sender-gone"
+                          ELSE IF rekeyed /\ "F24" \in Deviations THEN "err:sender-gone:F24" ELSE "ok"
                      rec2 == [rec EXCEPT !.recv = (m.byLeaf :> RatchetAfter(r, gen)) @@ @]
                  IN /\ UNCHANGED grp
                     /\ repo' = IF v # "ok"
@@ -1045,7 +1056,7 @@ ObsDeliverCommit(n) ==
         ar == ApplyProposals("obs", Creator, obs.tree, CommitterOf(c), c.items, obs.ext)
         cl == IF c.external THEN NextEmptyLeaf(ar.tree, 0) ELSE c.byLeaf
         old == IF c.external THEN MkLeaf(CommitLeafKey(n), c.by, 0, "commit") ELSE Node(ar.tree, 2 * c.byLeaf)
-        newLeaf == MkLeaf(CommitLeafKey(n), old.who, old.cv, "commit")
+        newLeaf == MkLeaf(CommitLeafKey(n), old.who, NewSig(old.cv, 20000, n), "commit")
         treeA == IF c.external THEN AddLeafAt(ar.tree, cl, newLeaf) ELSE ar.tree
         tree1 == IF c.path THEN ApplyPath(treeA, cl, newLeaf, c.pathKeys) ELSE ar.tree
         args == [commit |-> n]
